@@ -59,6 +59,9 @@ def nx23(F, R):
     # filter / map / skip_while adaptors.  X stands for the store element (key, vertex) the search stopped at.
     items = [x for x in walk(rid) if x[0] == "item" and iter_source(x[1]) is not None]
     item = items[0] if items else None
+    if item is None and range_search(F, b, raw, rid, R, detail):
+        nx3_writes(F, R, b, raw, rid)
+        return
     if item is None:
         R.bad("NX2", "NX2/Sodg::next_id/not-a-store-search", b.where(), "cannot establish NX2: the returned id is not the key of an item of a search over the vertex store", detail)
         return
@@ -164,6 +167,75 @@ def nx23(F, R):
               "it returned before", shown)
     if absent and bound:
         R.ok("NX2", b.where(), "id = key of a store item with tag ∈ {0} and key >= pre-state allocator position", shown)
+    nx3_writes(F, R, b, raw, rid)
+
+
+def range_search(F, b, raw, rid, R, detail):
+    """the id is found by `(P..capacity()).find(|v| vertices.get(*v) is present-slot-with-tag-0)` (or `P..=capacity()-1`): every id from
+    the pre-state position up to the last slot is tried in ascending order, and the one returned is absent.  Returns True (and
+    records NX2) iff recognised."""
+    core = strip_load(rid)
+    if core[0] != "item" or not (isinstance(core[2], tuple) and core[2] and core[2][0] == "find"):
+        return False
+    rg = strip_load(core[1])
+    cap = lambda x: strip_load(x)[0] == "call" and strip_load(x)[1].split("::")[-1] == "capacity" and \
+        strip_load(strip_load(x)[2][0])[0] == "field" and strip_load(strip_load(x)[2][0])[2] == "Sodg::vertices" and \
+        strip_load(strip_load(strip_load(x)[2][0])[1]) == ("param", 1)
+    start = end_ok = None
+    if rg[0] == "agg" and rg[1] == "Range":
+        fs = dict(rg[3])
+        start, end_ok = fs.get("start"), cap(fs.get("end", ("?",)))
+    elif rg[0] == "call" and rg[1].endswith("::new") and len(rg[2]) == 2 and "RangeInclusive" in (rg[1] + show(rg, b)):
+        start = rg[2][0]
+        e2 = strip_load(rg[2][1])
+        end_ok = e2[0] == "binop" and e2[1] == "Sub" and strip_load(e2[3]) == ("const", 1) and cap(e2[2])
+    elif rg[0] == "call" and rg[1].endswith("::new") and len(rg[2]) == 2:
+        # `<Idx>::new` is how RangeInclusive::new prints with its generic parameter
+        start = rg[2][0]
+        e2 = strip_load(rg[2][1])
+        end_ok = e2[0] == "binop" and e2[1] == "Sub" and strip_load(e2[3]) == ("const", 1) and cap(e2[2])
+    else:
+        return False
+    if start is None or not is_prestate_position(start, b, raw):
+        R.bad("NX2", "NX2/Sodg::next_id/range-start-not-the-position", b.where(), "the id search does not start at the pre-state allocator position", detail)
+        return True
+    if not end_ok:
+        R.bad("NX2", "NX2/Sodg::next_id/range-end-not-the-capacity", b.where(),
+              "the id search does not run up to the last slot (capacity − 1): an absent id below the capacity is never handed out", detail)
+        return True
+    # the predicate: the slot of the candidate holds a vertex whose tag is 0
+    fb = core[2][1]
+    t = b.blocks[fb]["term"]
+    cl = strip_load(deref_addr(b, b.call_args(t, (fb, b.term_idx(fb)))[1])) if t["k"] == "call" else None
+    cb = F.bodies.get(cl[1]) if cl is not None and cl[0] == "closure" else None
+    summ = pred_summary(cb) if cb is not None else []
+    ok = False
+    if len(summ) == 1:
+        env = {("param", 2): ("X",)}
+        for ui, uop in enumerate(cl[2]):
+            env[("upvar", ui)] = b.expr_local(uop[1], uop[2]) if uop[0] == "addr" else uop
+        absent = other = False
+        for f in summ[0]:
+            if "Level" in repr(f):
+                continue
+            g = unload(subst(f, env))
+            subj = strip_load(g[1]) if g[0] in ("in", "notin", "bool") else None
+            if g[0] == "in" and g[2] == frozenset([0]) and subj[0] == "field" and subj[2] == "Vertex::branch" and \
+                    mentions(subj, lambda y: y[0] == "elem" and mentions(y, lambda z: z == ("X",)) and mentions(y, lambda z: z[0] == "field" and z[2] == "Sodg::vertices")):
+                absent = True
+            elif g[0] == "in" and g[2] == frozenset(["Some"]) and subj[0] == "discr":
+                pass        # the slot exists
+            else:
+                other = True
+        ok = absent and not other
+    if not ok:
+        R.bad("NX2", "NX2/Sodg::next_id/predicate-not-absent", b.where(), "the id search does not accept exactly the ids whose slot holds an absent vertex (tag 0)", detail)
+    else:
+        R.ok("NX2", b.where(), "id = first v in position..capacity with an absent vertex in its slot", detail)
+    return True
+
+
+def nx3_writes(F, R, b, raw, rid):
     # NX3: position := id + 1 on every path, or only skipped when already larger
     ws = [e for e in raw if e.kind == "write" and strip_load(e.loc)[0] == "field" and strip_load(e.loc)[2] == "Sodg::next_v"]
     if not ws:
@@ -193,6 +265,11 @@ def nx23(F, R):
                 continue
             if fct[0] == "in" and strip_load(fct[1])[0] == "discr" and strip_load(strip_load(fct[1])[1])[0] in ("next", "find", "phi"):
                 continue
+            # what the search predicate established about the candidate's slot (it exists; its vertex is absent)
+            if fct[0] == "in" and mentions(fct[1], lambda x: x[0] == "item") and \
+                    mentions(fct[1], lambda x: x[0] == "elem" and mentions(x, lambda z: z[0] == "field" and z[2] == "Sodg::vertices")) and \
+                    (fct[2] == frozenset(["Some"]) or (fct[2] == frozenset([0]) and strip_load(fct[1])[0] == "field" and strip_load(fct[1])[2] == "Vertex::branch")):
+                continue
             if fct[0] == "cmp" and fct[1] in ("<=", "<") and strip_load(fct[3])[0] == "field" and strip_load(fct[3])[2] == "(tuple)::0" and \
                     mentions(fct[3], lambda x: x[0] == "item") and is_prestate_position(fct[2], b, raw):
                 continue
@@ -213,6 +290,7 @@ def nx23(F, R):
                   "the allocator position is advanced only under a condition other than 'it is not already larger': %s" % badg, d)
         else:
             R.ok("NX3", w.where(), "position := id + 1 (skipped only when already larger)", d)
+
 
 
 def excludes_all_but(conj, subj_pred, value):
